@@ -379,7 +379,7 @@ C02 = Prop("C02", "opt", ["NitroVerif.Props.C02"], gen_c02,
            level_text="Lean 4: every explainable command line parses to the interpretation of its items, the interpretation does "
                       "not depend on item order beyond multi-option values and positionals, values are carried verbatim; "
                       "checked differentially with a render-then-parse generator.",
-           technique="Lean 4 proof (parse = interp o explain; render/explain inverse) + differential correspondence", **COMMON)
+           technique="Lean 4 proof (parse = interp o explain; render o explain = id) + differential correspondence", **COMMON)
 
 C03 = Prop("C03", "opt", ["NitroVerif.Props.C03"], gen_c03,
            rule="exhaustive matrix {option, multi-option, toggle} x {given on the command line or not} x {env unbound, unset, "
